@@ -92,6 +92,9 @@ class ManifestMachine(FormatMachine):
     def model_from_expected(self, s, expected):
         return {"compose": dict(expected["compose"]), "payload": copy.deepcopy(expected["payload"])}
 
+    def model_from_observation(self, obs):
+        return {"compose": dict(obs["compose"]), "payload": copy.deepcopy(obs["payload"])}
+
     def abstract(self, s):
         p = s.model["payload"]
         return [s.model["compose"].get("type"), sorted((len(a), sorted(len(e) for e in a.values())) for a in p.values())]
